@@ -300,6 +300,20 @@ func sinksOfRun(r *an.Run, m *runModel) []sink {
 			}
 			// any call that (transitively, inside the module) reaches a file-system mutator, with a []byte argument
 			if sc != nil && an.InModule(sc) && reachesMutator(r, sc) {
+				// an output stage that is handed the bytes and chooses the mode itself (it also previews or
+				// prints): its sinks are the sinks of the iteration
+				if depth < 2 && sc.Blocks != nil && an.FuncPkgPath(sc) == an.FuncPkgPath(m.run) && sc != m.run {
+					choosesMode := false
+					for _, ic := range an.Calls(sc) {
+						if _, isOut := isStdoutWrite(ic); isOut || an.StaticCallee(ic) == preview && preview != nil {
+							choosesMode = true
+						}
+					}
+					if choosesMode {
+						scan(sc, nil, depth+1)
+						continue
+					}
+				}
 				hasBytes := false
 				for _, a := range c.Common().Args {
 					if an.ShortType(a.Type()) == "[]byte" {
